@@ -55,8 +55,11 @@ def worker(slot, q, out, lock, tier, all_props):
             if ap.returncode != 0:
                 row["error"] = "patch does not apply: " + ap.stdout[-300:]
             else:
-                b = sh("cargo build --offline --quiet 2>&1 | tail -20", cwd=hd, env=env)
                 binp = os.path.join(td, "debug", "bsvmc")
+                # a failed build must not fall back on the binary built for the previous change
+                if os.path.exists(binp):
+                    os.remove(binp)
+                b = sh("cargo build --offline --quiet 2>&1 | tail -20", cwd=hd, env=env)
                 if b.returncode != 0 or not os.path.exists(binp):
                     row["error"] = "harness build failed: " + b.stdout[-600:]
                 else:
